@@ -131,7 +131,30 @@ func (s *sim) directRead(args ...string) (r interface{}) {
 	if len(rs) == 0 || open {
 		return nodeh.RErr("no reply")
 	}
-	return rs[0]
+	return compact(rs[0])
+}
+
+// bigBulk stands for a bulk reply that is too large to keep in dumps: length
+// and hash identify it.
+type bigBulk struct {
+	n int
+	h uint64
+}
+
+func compact(v interface{}) interface{} {
+	switch x := v.(type) {
+	case []byte:
+		if len(x) > 2048 {
+			h := fnv.New64a()
+			h.Write(x)
+			return bigBulk{len(x), h.Sum64()}
+		}
+	case []interface{}:
+		for i := range x {
+			x[i] = compact(x[i])
+		}
+	}
+	return v
 }
 
 func entryName(read []string, key string) string { return read[0] + " " + key }
@@ -252,6 +275,8 @@ func diffDump(a, b *dumpT) string {
 
 func fmtReply(v interface{}) string {
 	switch x := v.(type) {
+	case bigBulk:
+		return fmt.Sprintf("<bulk len=%d fnv=%016x>", x.n, x.h)
 	case model.Err:
 		return "-ERR " + string(x)
 	case []interface{}:
